@@ -286,6 +286,8 @@ func (x *Exec) control() {
 	_ = running
 	lastSid := -1
 	idleAfterDone := 0
+	spin := 0
+	var spinAt time.Duration = -1
 	runLen := 0
 	maxRun := o.MaxRun
 	if maxRun == 0 {
@@ -315,15 +317,36 @@ func (x *Exec) control() {
 				en = append(en, r)
 			}
 		}
-		keepRunning := lastSid
+		// A lone goroutine that keeps hitting scheduling points at one virtual instant is polling
+		// the clock (e.g. `for now <= deadline { <-time.After(0) }`): in virtual time that never
+		// ends, in real time it ends within a clock tick.  Deterministic rule: after 150 such
+		// decisions virtual time is advanced by 1 ms (not a scheduling decision, no budget).
+		if len(en) == 1 && x.sidOf(en[0]) == lastSid && x.Now() == spinAt {
+			spin++
+			if spin >= 150 {
+				if x.trace {
+					x.Trace = append(x.Trace, fmt.Sprintf("    %9s clock-polling goroutine %s: virtual time +1ms", x.Now(), x.sidName[lastSid]))
+				}
+				time.Sleep(time.Millisecond)
+				spin = 0
+			}
+		} else {
+			spin = 0
+		}
+		spinAt = x.Now()
+		keepRunning, demote := lastSid, -1
 		if runLen >= maxRun {
-			keepRunning = -1 // fairness: the long-running goroutine loses its default priority once
+			// fairness: the long-running goroutine goes to the end of the canonical order once
+			keepRunning, demote = -1, lastSid
 			runLen = 0
 		}
 		sort.SliceStable(en, func(i, j int) bool {
 			si, sj := x.sidOf(en[i]), x.sidOf(en[j])
 			if (si == keepRunning) != (sj == keepRunning) {
 				return si == keepRunning
+			}
+			if (si == demote) != (sj == demote) {
+				return sj == demote
 			}
 			return si < sj
 		})
@@ -512,32 +535,26 @@ func Explore(t *testing.T, r *Run, o *SchedOpts) {
 		}
 	}
 
-	// frontier expansion shared by all shards (deterministic), then each shard takes its share
-	type item struct {
-		prefix []int
-	}
 	_, nsh := r.Shard()
-	var explore func(prefix []int, depth int, frontier *[]item, collectDepth int, count bool)
-	explore = func(prefix []int, depth int, frontier *[]item, collectDepth int, count bool) {
+	budget := func() bool {
 		if capped {
-			return
+			return false
 		}
 		if o.MaxExecutions > 0 && execs >= (o.MaxExecutions+int64(nsh)-1)/int64(nsh) {
 			capped = true
 			r.Cap(fmt.Sprintf("scenario %s: execution cap %d", o.Name, o.MaxExecutions))
-			return
+			return false
 		}
 		if r.OutOfTime() {
 			capped = true
 			r.Cap(fmt.Sprintf("scenario %s: time budget", o.Name))
-			return
+			return false
 		}
-		if os.Getenv("VERIF_ANNOUNCE") != "" {
-			Announce(fmt.Sprintf("scenario=%s prefix=%v", o.Name, prefix))
-		}
-		x := runOne(t, o, prefix, false)
-		handle(x, count)
-		for i := len(prefix); i < len(x.points); i++ {
+		return true
+	}
+	// alternatives of execution x after its prefix, within the deviation bounds
+	alternatives := func(x *Exec, from int, f func(np []int)) {
+		for i := from; i < len(x.points); i++ {
 			p := x.points[i]
 			for alt := 1; alt < p.nOptions; alt++ {
 				pre, et := p.preemptBefore, p.earlyTBefore
@@ -552,26 +569,37 @@ func Explore(t *testing.T, r *Run, o *SchedOpts) {
 				if pre > o.MaxPreempt || et > o.MaxEarlyT {
 					continue
 				}
-				np := append(append([]int{}, x.choices[:i]...), alt)
-				if frontier != nil && depth+1 >= collectDepth {
-					*frontier = append(*frontier, item{np})
-					continue
-				}
-				explore(np, depth+1, frontier, collectDepth, count)
+				f(append(append(make([]int, 0, i+1), x.choices[:i]...), alt))
 			}
 		}
 	}
-	if nsh <= 1 {
-		explore(nil, 0, nil, 0, true)
-	} else {
-		sh, _ := r.Shard()
-		var frontier []item
-		explore(nil, 0, &frontier, 2, sh == 0)
-		for i, it := range frontier {
-			if i%nsh == sh {
-				explore(it.prefix, 2, nil, 0, true)
-			}
+	var explore func(prefix []int)
+	explore = func(prefix []int) {
+		if !budget() {
+			return
 		}
+		if os.Getenv("VERIF_ANNOUNCE") != "" {
+			Announce(fmt.Sprintf("scenario=%s prefix=%v", o.Name, prefix))
+		}
+		x := runOne(t, o, prefix, false)
+		handle(x, true)
+		alternatives(x, len(prefix), explore)
+	}
+	if nsh <= 1 {
+		explore(nil)
+	} else {
+		// every shard runs the root execution (deterministic) and takes every nsh-th of its
+		// first-level alternatives; alternatives are generated one at a time (no frontier list)
+		sh, _ := r.Shard()
+		x := runOne(t, o, nil, false)
+		handle(x, sh == 0)
+		k := 0
+		alternatives(x, 0, func(np []int) {
+			if k%nsh == sh {
+				explore(np)
+			}
+			k++
+		})
 	}
 	r.Add("max_points_"+o.Name, 0)
 	r.mu.Lock()
